@@ -108,8 +108,11 @@ def draw_case(data, tier):
             prog.append({"op": op, "i": i, "order": list(data.draw(st.permutations(list(range(len(sig)))), label="neworder"))})
         npool += 1
     reject = data.draw(st.sampled_from(["types", "D", "torus", "none"]), label="reject")
+    # storage dtypes: all float32 (usual), or one block stored as int32 / float16 next to float32 blocks with half-integer values
+    mixed = data.draw(st.sampled_from([None, None, None, "int32", "float16"]), label="mixed_dtype")
     return {"d": d, "shape": list(shape), "torus": list(torus), "sig": sig, "nlead": nlead, "batch": batch,
-            "operands": operands, "prog": prog, "reject": reject}
+            "operands": operands, "prog": prog, "reject": reject, "mixed_dtype": mixed,
+            "odd_block": data.draw(st.integers(0, len(sig) - 1), label="odd_dtype_block")}
 
 
 _SHARED_JIT = jax.jit(lambda m: m)  # one jitted identity for the whole process (compilation cache shared between cases)
@@ -128,9 +131,12 @@ def _roundtrip(mi, kind):
     raise HarnessError(kind)
 
 
+_DTYPES = {}
+
+
 def _build(d, torus, model, order_types, method, split, template_order):
     """Build a MultiImage holding `model` (dict type->array) with the given insertion order and method."""
-    arr = lambda t: jnp.asarray(model[t], dtype=jnp.float32)
+    arr = lambda t: jnp.asarray(model[t], dtype=getattr(jnp, _DTYPES.get(t, "float32")))
     if method == "dict":
         return geom.MultiImage({t: arr(t) for t in order_types}, d, torus)
     if method == "append":
@@ -144,7 +150,7 @@ def _build(d, torus, model, order_types, method, split, template_order):
         return a.concat(b)
     if method == "from_vector":
         template = geom.MultiImage({t: jnp.zeros(model[t].shape, dtype=jnp.float32) for t in order_types}, d, torus)
-        vec = jnp.concatenate([arr(t).reshape(-1) for t in order_types])
+        vec = jnp.concatenate([arr(t).reshape(-1).astype(jnp.float32) for t in order_types])
         return geom.MultiImage.from_vector(vec, template)
     raise HarnessError(method)
 
@@ -171,9 +177,17 @@ def run_case(case):
     key = [d, shape, torus, case["sig"], nlead, case["operands"], case["prog"]]
 
     pool, models, orders = [], [], []
+    _DTYPES.clear()
+    mixed = case.get("mixed_dtype")
+    if mixed and len(types) > 1:
+        _DTYPES[types[case.get("odd_block", 0) % len(types)]] = mixed
+        labels.append("mixed_dtype_" + mixed)
     for oi, od in enumerate(case["operands"]):
         rng = np.random.default_rng(od["seed"])
         model = {t: rng.integers(-4, 5, size=lead(c) + shape + (d,) * t[0]).astype(np.int64) for t, c in sig}
+        if _DTYPES:
+            # the float32 blocks carry half-integers (exact in float32 and float16, destroyed by a cast to an integer dtype)
+            model = {t: (a if _DTYPES.get(t) == "int32" else a + 0.5) for t, a in model.items()}
         order_types = [types[i] for i in od["order"]]
         mi = _build(d, torus, model, order_types, od["method"], od["split"], None)
         labels.append("method_" + od["method"])
